@@ -120,7 +120,8 @@ def sequence(ctx, r, idx):
 		specs.append({"base_port": 5700, "child_of": 0, "child_idx": 1, "name": "A/1", "pm": False})
 	bench = radio.Bench(r.getrandbits(30), specs)
 	n = len(specs)
-	other = bench.world.net.endpoint("127.0.0.1", 45000 + (idx % 1000))   # a sender that is not the configured remote
+	# a sender that is not the configured remote: another port, sometimes another host address as well
+	other = bench.world.net.endpoint(r.choice(("127.0.0.1", "127.0.0.1", "127.0.0.2", "10.1.2.3")), 45000 + (idx % 1000))
 	log = []
 	# a random prior state
 	linked = r.random() < 0.6
@@ -164,7 +165,7 @@ def sequence(ctx, r, idx):
 		payload = ("CMD " + text + "\0").encode()
 		from_other = r.random() < 0.15
 		src = other if from_other else node.l1_ctrl
-		log.append("%s <- %s%s" % (specs[i]["name"], text[:90], " (from another port)" if from_other else ""))
+		log.append("%s <- %s%s" % (specs[i]["name"], text[:90], " (from %s:%d)" % other.addr if from_other else ""))
 		src.sendto(payload, node.ctrl_port)
 		t_before = VT[0].now if VT[0] is not None else None
 		node.trx.ctrl_if.handle_rx()
